@@ -757,6 +757,10 @@ class PathCtx:
         self.solver = z3.Solver()
         self.opts = opts
         self.solver.set('timeout', int(opts.get('feas_timeout_ms', 20000)))
+        self._rl_feas = int(opts.get('feas_rlimit', 0))
+        self._rl_prove = int(opts.get('prove_rlimit', 0))
+        if self._rl_feas:
+            self.solver.set('rlimit', self._rl_feas)
         self.model = None
         self.new_prefixes = []
         self.inputs = {}  # name -> z3 const
@@ -954,8 +958,12 @@ class PathCtx:
         if timeout_ms is None:
             timeout_ms = self.opts.get('prove_timeout_ms', 60000)
         self.solver.set('timeout', int(timeout_ms))
+        if self._rl_prove:
+            self.solver.set('rlimit', self._rl_prove)
         r = self._check(z3.Not(t))
         self.solver.set('timeout', int(self.opts.get('feas_timeout_ms', 20000)))
+        if self._rl_feas or self._rl_prove:
+            self.solver.set('rlimit', self._rl_feas)
         if r == z3.unsat:
             self.discharged += 1
             return True
